@@ -276,6 +276,18 @@ CHECKS['C18'] = dict(
          'Values unbounded, shape fixed; parse-result isolation and '
          'determinism by bounded random histories only.',
     design_ref='5/C18', technique=SCEN_TECH, note=SCEN_NOTE, thorough=True)
+CHECKS['C13'] = dict(
+    category='other',
+    text='For fixed tree shapes with all values symbolic, the tree after '
+         'generate_stats() equals the tree an independent specification '
+         'computes from the tree before (whole-tree equality: exact file '
+         'figures = hunk-parser totals of split_lines(diff, declared or '
+         'guessed newline), additive change/top sums, merge into existing '
+         'stats, everything else unchanged, twice == once). Text utilities '
+         'and hunk parser enter as pure uninterpreted functions; what they '
+         'compute is C14/C16. Shapes bounded; ground-truth generator as '
+         'bounded layer; multi-byte diff encodings are a known finding.',
+    design_ref='5/C13', technique=SCEN_TECH, note=SCEN_NOTE, thorough=True)
 
 NOT_YET = 'check not built yet (work in progress; see DESIGN.md section 5)'
 NA = {}
